@@ -14,3 +14,14 @@ package lang
 //@   call FormatFloat#1: assert arg_fmt == 'f' && arg_prec == -1 && arg_bitSize == 64
 //@   call FormatInt#*: assert arg_base == 10
 //@   call FormatUint#*: assert arg_base == 10
+
+// pointers are followed to the end: what gets formatted is never a non-nil pointer (otherwise two handles to equal values
+// would be two different ring members, identified by address)
+// (reflect.Value is opaque to the verifier, so what is checked is the shape: the dereferencing is a loop - it runs until its
+// condition `pointer and not nil` is false - and its result is what reprOfValue formats)
+//@ func Repr
+//@   property C15
+//@   pure
+//@   loop 0: invariant true
+//@   ghost at end loop 0: last = val
+//@   call reprOfValue#0: assert true
